@@ -4,6 +4,10 @@ mod admit;
 mod block_on;
 mod c01;
 mod c02;
+mod c04;
+mod c05;
+mod components;
+mod mutants;
 mod c29;
 mod cfg;
 mod examples_run;
@@ -12,9 +16,17 @@ mod genair;
 fn main() {
     mck::install_panic_hook();
     let args = mck::Args::parse();
+    match args.worker.as_deref() {
+        Some("proofs") => mutants::worker_proofs(),
+        Some("components") => components::worker(),
+        Some(k) => mck::report::machinery(&format!("unknown worker kind {k:?}")),
+        None => {},
+    }
     match args.prop.as_str() {
         "C01" => c01::run(&args),
         "C02" => c02::run(&args),
+        "C04" => c04::run(&args),
+        "C05" => c05::run(&args),
         "C29" => c29::run(&args),
         p => mck::report::machinery(&format!("h_stark does not serve property {p:?}")),
     }
